@@ -1293,6 +1293,14 @@ where
             .find(|f| f.raw_file == file)
             .map(|f| (f.entry.clone(), f.current_offset, f.current_cluster, f.dirty))
     }
+
+    /// Verification hook: move the handle counter to `next`, standing for
+    /// the (up to 2^32) open calls it takes the counter to get there.
+    pub fn verif_set_next_handle_id(&self, next: u32) {
+        if let Ok(mut data) = self.data.try_borrow_mut() {
+            data.id_generator = HandleGenerator::new(next);
+        }
+    }
 }
 
 // ****************************************************************************
